@@ -1,6 +1,8 @@
 """C15 CrossHair harnesses: Slice / Sample / create_slice_or_sample."""
 from typing import Optional
+import os
 from engine import mark
+PART = int(os.environ.get('VERIF_PART', '-1'))
 from TotalDepth.common import Slice as S
 
 
@@ -62,11 +64,16 @@ def python_slice_indices(start, stop, step, n):
     return out
 
 
-def _slice_sel(start, stop, step, n):
+def _slice_sel(start, stop, step, n, first_n=None):
     real = S.slice if hasattr(S, 'slice') else None
     S.slice = PySlice
     try:
         s = S.Slice(start, stop, step)
+        if first_n is not None:
+            # the same selector object was applied to a sequence of another length before (one --frame-slice serves every log pass)
+            s.count(first_n)
+            s.indices(first_n)
+            s.first(first_n)
         got = s.indices(n)
         exp = python_slice_indices(start, stop, step, n)
         mark.hit()
@@ -108,6 +115,28 @@ def slice_sel_neg(start: Optional[int], stop: Optional[int], step: int, n: int) 
     return _slice_sel(start, stop, step, n)
 
 
+def slice_reuse(start: Optional[int], stop: Optional[int], step: Optional[int], n1: int, n2: int) -> bool:
+    """
+    pre: 0 <= n1 <= 5 and 0 <= n2 <= 5 and n1 != n2
+    pre: start is None or -5 <= start <= 5
+    pre: stop is None or -5 <= stop <= 5
+    pre: step is None or (-3 <= step <= 3 and step != 0)
+    pre: PART < 0 or n1 == PART
+    post: _
+    """
+    n1, n2 = mark.pick(n1, 0, 5), mark.pick(n2, 0, 5)
+    return _slice_sel(start, stop, step, n2, n1)
+
+
+def sample_reuse(size: int, n1: int, n2: int) -> bool:
+    """
+    pre: 0 <= n1 <= 8 and 0 <= n2 <= 8 and n1 != n2
+    pre: 1 <= size <= 5
+    post: _
+    """
+    return _sample_sel(size, n2, n1)
+
+
 def sample_sel_small(size: int, n: int) -> bool:
     """
     pre: 1 <= size <= 4
@@ -126,8 +155,12 @@ def sample_sel(size: int, n: int) -> bool:
     return _sample_sel(size, n)
 
 
-def _sample_sel(size, n):
+def _sample_sel(size, n, first_n=None):
     s = S.Sample(size)
+    if first_n is not None:
+        s.count(first_n)
+        s.indices(first_n)
+        s.first(first_n)
     got = s.indices(n)
     mark.hit()
     want = size if size < n else n
